@@ -1,51 +1,45 @@
-import Unsized.MachineResize
+import Unsized.PtrTree
+import Unsized.MachineNodeMisc
 /-!
-# Pointer trees of the unsized-type system (Stage C)
+# Fresh pointer trees on canonical bytes and `ptrs_fresh` (Stage C of C01)
 
-`PtrTree` mirrors the Rust `Ptr` types one-for-one:
+The pointer model is b-c03's (`Unsized/PtrTree.lean`, namespace `Unsized.PtrT`: `PtrTree`, `getPtr`,
+`resizeNotify`, `checkPointers` — code-faithful and tied to the real code by the C03 correspondence).
+This file adds, on top of the path machinery of the resize machine:
 
-* `leaf addr meta rem`   — `ListPtr` (fat pointer: `meta` = byte length of the elements; also the `list`
-                            field of `Set`/`Map`/`UnsizedString`), `CheckedPtr` (`meta` = `size_of::<T>()`),
-                            `RemainingBytesPtr` (`rem = true`, `meta` = slice length)
-* `ul addr len cw lo hi inner mayBorrow` — `UnsizedListPtr { list_ptr (addr + len metadata), range: lo..hi,
-                            inner_exclusive, possible_mut_borrow }` (`cw = size_of::<C>()`)
-* `node kids`            — the generated struct `Ptr` (sized part first, if any)
-* `start addr variant inner` — `StartPointer<Enum>` (`inner = none` for a unit variant)
-
-`treeOf s v base` is the tree `get_ptr` builds on the canonical bytes of `v` placed at `base`
-(`getPtr_encode` relates it to the byte-level `getPtr`); `chainOf` is the tree after the accessors along
-a path have been taken (`index_exclusive` fills `inner_exclusive` and sets `possible_mut_borrow`).
-`notifyP` is the pointer half of `resize_notification` (the byte half is `Machine.notify`).
+* `treeOf s v base`  — the tree `get_ptr` builds on the canonical bytes of `v` placed at `base`
+                        (`getPtr_encode`);
+* `after_all`        — a value lying entirely AFTER the source pointer: every pointer in its tree shifts,
+                        i.e. `resizeNotify` of its fresh tree is its fresh tree at the shifted base;
+* `before_all`       — a value lying entirely BEFORE the source pointer (bytes intact): nothing moves
+                        (an `UnsizedList` sibling decides "the change happened after me");
+* `chainWith`        — the tree after the chain of child accessors along a path has been taken
+                        (`inner_exclusive = Some`, `possible_mut_borrow = true` along the chain);
+* `notify_chain`     — **`ptrs_fresh`**: after a resize of the sub-value at the end of the chain, the
+                        broadcast turns the chain tree of the old value into the chain tree of the NEW value.
 -/
 namespace Unsized.Ptr
-open Common Unsized Unsized.Text Unsized.Machine
-
-inductive PtrTree where
-  | leaf (addr mlen : Nat) (rem : Bool)
-  | ul (addr len cw lo hi : Nat) (inner : Option PtrTree) (mayBorrow : Bool)
-  | node (kids : List PtrTree)
-  | start (addr variant : Nat) (inner : Option PtrTree)
-  deriving Repr, Inhabited
-
-/-! ## `get_ptr` on the canonical bytes of a value -/
+open Common Unsized Unsized.Text Unsized.Machine Unsized.PtrT
 
 mutual
 /-- The pointer tree `get_ptr` returns for the value `v` of shape `s` serialized at `base`. -/
 def treeOf : Shape → Val → Nat → PtrTree
-  | .fixed f, _, b => .leaf b f.size false
-  | .list e _, .seq es, b => .leaf b (e.size * es.length) false
-  | .set e _, .seq es, b => .leaf b (e.size * es.length) false
-  | .map kw f _, .seq es, b => .leaf b ((kw + f.size) * es.length) false
-  | .str _, .bytes l, b => .leaf b (1 * l.length) false
-  | .rem, .bytes l, b => .leaf b l.length true
-  | .ulist e, .useq vs, b => .ul b vs.length 4 b (b + size (.ulist e) (.useq vs)) none false
+  | .fixed _, _, b => .leaf .checked b
+  | .list _ _, _, b => .leaf .list b
+  | .set _ _, _, b => .node [.leaf .list b]
+  | .map _ _ _, _, b => .node [.leaf .list b]
+  | .str _, _, b => .node [.leaf .list b]
+  | .rem, _, b => .leaf .rem b
+  | .ulist e, .useq vs, b => .ulist 4 b vs.length b (b + size (.ulist e) (.useq vs)) none false
   | .umap kw e, .umap es, b =>
-      .ul b es.length (Shape.entryW kw) b (b + size (.umap kw e) (.umap es)) none false
+      .node [.ulist (Shape.entryW kw) b es.length b (b + size (.umap kw e) (.umap es)) none false]
   | .struct sized fs, .record _ vs, b =>
       if sized.isEmpty then .node (treesOf fs vs b)
-      else .node (.leaf b (Fixed.sizeList sized) false :: treesOf fs vs (b + Fixed.sizeList sized))
+      else .node (.leaf .checked b :: treesOf fs vs (b + Fixed.sizeList sized))
   | .enum _ ps, .variant i pl, b => .start b i (variantTree ps i pl (b + 1))
-  | _, _, b => .leaf b 0 false
+  | .unit, _, _ => .node []
+  | .disc d inner, v, b => treeOf inner v (b + d.length)
+  | _, _, b => .leaf .checked b
 def treesOf : List Shape → List Val → Nat → List PtrTree
   | f :: fs, v :: vs, b => treeOf f v b :: treesOf fs vs (b + size f v)
   | _, _, _ => []
@@ -56,304 +50,217 @@ def variantTree : List Shape → Nat → Val → Nat → Option PtrTree
   | [], _, _, _ => none
 end
 
-/-! ## `resize_notification` on pointers -/
+/-- `get_ptr` on canonical bytes (followed by anything, unless the shape ends in `RemainingBytes`)
+returns `treeOf` and consumes exactly the serialized size. -/
+def GetPtrOk (s : Shape) : Prop :=
+  ∀ top ie, Shape.okAux top ie s = true → ∀ v rest base, valid s v = true → fits s v = true →
+    (rest = [] ∨ s.zst = false) → getPtr s (encode s v ++ rest) base = .ok (treeOf s v base, size s v)
 
-mutual
-/-- Pointer half of `UnsizedType::resize_notification(self_mut, source_ptr, change)`; `bs` = the bytes at
-the time of the broadcast (after the move, before any header rewrite). -/
-def notifyP : PtrTree → List Nat → Nat → Bool → Nat → Except Err PtrTree
-  | .leaf a m rem, _, src, neg, amt =>
-    if src < a then .ok (.leaf (applyDelta neg amt a) m rem)
-    else if rem && decide (a < src) then .error .parse   -- `UnsizedUnexpected`: resize after RemainingBytes
-    else .ok (.leaf a m rem)
-  | .ul a len cw lo hi inner mb, bs, src, neg, amt =>
-    if src < a then
-      -- the change happened before me; a (possibly stale) inner pointer lives inside me and moves along
-      match notifyPo inner bs src neg amt with
-      | .error e => .error e
-      | .ok inner' =>
-        .ok (.ul (applyDelta neg amt a) len cw (applyDelta neg amt lo) (applyDelta neg amt hi) inner' mb)
-    else if src = a then .ok (.ul a len cw lo (applyDelta neg amt hi) inner mb)
-    else if src < a + (12 + len * cw + rd32 bs a) then
-      match inner with
-      | none => .error .parse                            -- `UnsizedUnexpected`: inner Mut not present
-      | some t =>
-        match notifyP t bs src neg amt with
-        | .error e => .error e
-        | .ok t' => .ok (.ul a len cw lo (applyDelta neg amt hi) (some t') mb)
-    else .ok (.ul a len cw lo hi inner mb)
-  | .node ks, bs, src, neg, amt =>
-    match notifyPs ks bs src neg amt with
-    | .error e => .error e
-    | .ok ks' => .ok (.node ks')
-  | .start a var inner, bs, src, neg, amt =>
-    match notifyPo inner bs src neg amt with
-    | .error e => .error e
-    | .ok inner' => .ok (.start (if src < a then applyDelta neg amt a else a) var inner')
-def notifyPs : List PtrTree → List Nat → Nat → Bool → Nat → Except Err (List PtrTree)
-  | [], _, _, _, _ => .ok []
-  | t :: ts, bs, src, neg, amt =>
-    match notifyP t bs src neg amt with
-    | .error e => .error e
-    | .ok t' => match notifyPs ts bs src neg amt with
-      | .error e => .error e
-      | .ok ts' => .ok (t' :: ts')
-def notifyPo : Option PtrTree → List Nat → Nat → Bool → Nat → Except Err (Option PtrTree)
-  | none, _, _, _, _ => .ok none
-  | some t, bs, src, neg, amt =>
-    match notifyP t bs src neg amt with
-    | .error e => .error e
-    | .ok t' => .ok (some t')
-end
-
-/-! ## `check_pointers` -/
-
-mutual
-/-- `UnsizedTypePtr::check_pointers(range, cursor)`: the verdict and the new cursor. -/
-def checkP : PtrTree → (lo hi cursor : Nat) → Bool × Nat
-  | .leaf a _ rem, lo, hi, cur =>
-    (decide (cur ≤ a) && decide (lo ≤ a) && (if rem then decide (a ≤ hi) else decide (a < hi)), a)
-  | .ul a _ _ _ _ inner _, lo, hi, cur =>
-    (decide (cur ≤ a) && decide (lo ≤ a) && decide (a < hi) && checkPo inner lo hi, a)
-  | .node ks, lo, hi, cur => checkPs ks lo hi cur
-  | .start a _ inner, lo, hi, cur =>
-    match inner with
-    | none => (decide (cur ≤ a) && decide (lo ≤ a) && decide (a < hi), a)
-    | some t =>
-      let r := checkP t lo hi a
-      (decide (cur ≤ a) && decide (lo ≤ a) && decide (a < hi) && r.1, r.2)
-def checkPs : List PtrTree → (lo hi cursor : Nat) → Bool × Nat
-  | [], _, _, cur => (true, cur)
-  | t :: ts, lo, hi, cur =>
-    let r := checkP t lo hi cur
-    let r2 := checkPs ts lo hi r.2
-    (r.1 && r2.1, r2.2)
-def checkPo : Option PtrTree → (lo hi : Nat) → Bool
-  | none, _, _ => true
-  | some t, lo, hi => (checkP t lo hi lo).1
-end
-
-
-/-! ## The tree after taking the accessors along a path -/
-
-/-- The pointer tree of the value `v` at `base` after the chain of child accessors along `p` has been
-taken from a fresh borrow, with the tree `T` sitting at the end of the chain. Taking an element accessor of
-an `UnsizedList`/`UnsizedMap` stores the element's pointer in `inner_exclusive` and sets
-`possible_mut_borrow`; field and variant accessors point into the parent's tree. -/
-def chainWith : Shape → Val → Nat → List Step → PtrTree → PtrTree
-  | _, _, _, [], T => T
-  | s, v, b, st :: p, T =>
-    match resolve1 s v st with
-    | .error _ => treeOf s v b
-    | .ok (t, u) =>
-      let child := chainWith t u (b + (stepPre s v st 0).length) p T
-      match s, v, st with
-      | .struct sized fs, .record _ vs, .field i =>
-        if sized.isEmpty then .node ((treesOf fs vs b).set i child)
-        else .node (.leaf b (Fixed.sizeList sized) false :: (treesOf fs vs (b + Fixed.sizeList sized)).set i child)
-      | .ulist e, .useq vs, .elem _ =>
-        .ul b vs.length 4 b (b + size (.ulist e) (.useq vs)) (some child) true
-      | .umap kw e, .umap es, .elem _ =>
-        .ul b es.length (Shape.entryW kw) b (b + size (.umap kw e) (.umap es)) (some child) true
-      | .enum _ _, .variant idx _, .payload => .start b idx (some child)
-      | s, v, _ => treeOf s v b
-
-/-- The fresh chain: every pointer on it is what `get_ptr` gives on the current bytes. -/
-def chainOf (s : Shape) (v : Val) (b : Nat) (p : List Step) : PtrTree :=
-  match resolve s v p with
-  | .ok (t, u) => chainWith s v b p (treeOf t u (b + offsetOf s v p))
-  | .error _ => treeOf s v b
-
-
-/-! ## Notifications and fresh trees -/
-
-theorem appD_add (neg : Bool) (amt b k : Nat) (h : neg = true → amt ≤ b) :
-    applyDelta neg amt (b + k) = applyDelta neg amt b + k := by
-  unfold applyDelta; cases neg
-  · simp; omega
-  · have := h rfl; simp; omega
-
-theorem appD_gt (neg : Bool) (amt b src : Nat) (h : neg = true → amt ≤ b) (hs : src < b) :
-    src < b + 0 ∧ True := ⟨by omega, trivial⟩
-
-/-- A value that lies entirely AFTER the source pointer: every pointer in its tree shifts — the result is
-the fresh tree at the shifted base. -/
-def AfterOK (s : Shape) : Prop :=
-  ∀ (v : Val) (b : Nat) (bs : List Nat) (src : Nat) (neg : Bool) (amt : Nat), src < b → (neg = true → amt ≤ b) →
-    notifyP (treeOf s v b) bs src neg amt = .ok (treeOf s v (applyDelta neg amt b))
-
-theorem after_trees (fs : List Shape) (ih : ∀ f ∈ fs, AfterOK f) :
-    ∀ (vs : List Val) (b : Nat) (bs : List Nat) (src : Nat) (neg : Bool) (amt : Nat), src < b →
-      (neg = true → amt ≤ b) →
-      notifyPs (treesOf fs vs b) bs src neg amt = .ok (treesOf fs vs (applyDelta neg amt b)) := by
+theorem getPtrOk_fields (fs : List Shape) (ih : ∀ f ∈ fs, GetPtrOk f) :
+    Shape.okFields fs = true → ∀ vs rest base, validFields fs vs = true → fitsFields fs vs = true →
+      (rest = [] ∨ Shape.zstLast false fs = false) →
+      getPtrFields fs (encodeFields fs vs ++ rest) base = .ok (treesOf fs vs base, sizeFields fs vs) := by
   induction fs with
-  | nil => intro vs b bs src neg amt _ _; simp [treesOf, notifyPs]
+  | nil =>
+    intro _ vs rest base hv _ _
+    cases vs <;> simp [validFields] at hv
+    simp [getPtrFields, treesOf, sizeFields]
   | cons f fs ihf =>
-    intro vs b bs src neg amt hs hn
-    cases vs with
-    | nil => simp [treesOf, notifyPs]
-    | cons v vs =>
-      simp only [treesOf, notifyPs]
-      rw [ih f List.mem_cons_self v b bs src neg amt hs hn]
-      simp only []
-      rw [ihf (fun g hg => ih g (List.mem_cons_of_mem _ hg)) vs (b + size f v) bs src neg amt (by omega)
-        (fun h => by have := hn h; omega)]
-      simp only []
-      rw [appD_add neg amt b _ hn]
-
-theorem after_variant (ps : List Shape) (ih : ∀ p ∈ ps, AfterOK p) :
-    ∀ (i : Nat) (v : Val) (b : Nat) (bs : List Nat) (src : Nat) (neg : Bool) (amt : Nat), src < b →
-      (neg = true → amt ≤ b) →
-      notifyPo (variantTree ps i v b) bs src neg amt = .ok (variantTree ps i v (applyDelta neg amt b)) := by
-  induction ps with
-  | nil => intro i v b bs src neg amt _ _; simp [variantTree, notifyPo]
-  | cons q qs ihq =>
-    intro i v b bs src neg amt hs hn
-    cases i with
-    | zero =>
-      cases q <;> simp only [variantTree, notifyPo] <;>
-        first
-        | rfl
-        | (rw [ih _ List.mem_cons_self v b bs src neg amt hs hn])
-    | succ i =>
-      simp only [variantTree]
-      exact ihq (fun g hg => ih g (List.mem_cons_of_mem _ hg)) i v b bs src neg amt hs hn
-
-theorem after_all (s : Shape) : AfterOK s := by
-  induction s using Shape.induct' with
-  | struct sized fs ih =>
-    intro v b bs src neg amt hs hn
-    cases v <;> simp only [treeOf, notifyP, hs, if_true]
-    rename_i sz vs
-    by_cases he : sized.isEmpty = true
-    · simp only [he, if_true, notifyP]
-      rw [after_trees fs ih vs b bs src neg amt hs hn]
-    · simp only [he, notifyP, notifyPs, hs, if_true, Bool.false_eq_true, if_false]
-      rw [after_trees fs ih vs (b + Fixed.sizeList sized) bs src neg amt (by omega) (fun h => by have := hn h; omega)]
-      simp only []
-      rw [appD_add neg amt b _ hn]
-  | enum ds ps ih =>
-    intro v b bs src neg amt hs hn
-    cases v <;> simp only [treeOf, notifyP, hs, if_true]
-    rename_i i pl
-    rw [after_variant ps ih i pl (b + 1) bs src neg amt (by omega) (fun h => by have := hn h; omega)]
-    simp only []
-    rw [appD_add neg amt b 1 hn]
-  | ulist e ih =>
-    intro v b bs src neg amt hs hn
-    cases v <;> simp only [treeOf, notifyP, notifyPo, hs, if_true]
-    rw [appD_add neg amt b _ hn]
-  | umap kw e ih =>
-    intro v b bs src neg amt hs hn
-    cases v <;> simp only [treeOf, notifyP, notifyPo, hs, if_true]
-    rw [appD_add neg amt b _ hn]
-  | _ =>
-    intro v b bs src neg amt hs hn
-    cases v <;> simp only [treeOf, notifyP, hs, if_true]
-
-
-/-- A (non-ZST) value that lies entirely BEFORE the source pointer, its bytes intact: nothing in its
-tree moves (an `UnsizedList` sibling sees "the change happened after me"). -/
-def BeforeOK (s : Shape) : Prop :=
-  ∀ top ie, Shape.okAux top ie s = true → s.zst = false → ∀ v, valid s v = true → fits s v = true →
-    ∀ (pre rest : List Nat) (b : Nat), b = pre.length → ∀ (src : Nat), b + size s v ≤ src →
-    ∀ (neg : Bool) (amt : Nat),
-      notifyP (treeOf s v b) (pre ++ encode s v ++ rest) src neg amt = .ok (treeOf s v b)
-
-theorem before_trees (fs : List Shape) (ih : ∀ f ∈ fs, BeforeOK f) :
-    Shape.okFields fs = true → Shape.zstLast false fs = false → ∀ vs, validFields fs vs = true →
-      fitsFields fs vs = true → ∀ (pre rest : List Nat) (b : Nat), b = pre.length → ∀ (src : Nat),
-      b + sizeFields fs vs ≤ src → ∀ (neg : Bool) (amt : Nat),
-      notifyPs (treesOf fs vs b) (pre ++ encodeFields fs vs ++ rest) src neg amt = .ok (treesOf fs vs b) := by
-  induction fs with
-  | nil => intro _ _ vs _ _ pre rest b _ src _ neg amt; cases vs <;> simp [treesOf, notifyPs]
-  | cons f fs ihf =>
-    intro hok hz vs hv hf pre rest b hb src hs neg amt
+    intro hok vs rest base hv hf ht
     cases vs with
     | nil => simp [validFields] at hv
     | cons x xs =>
       simp only [validFields, fitsFields, Bool.and_eq_true] at hv hf
-      simp only [sizeFields] at hs
-      -- `f` is not ZST: either not last, or last of a non-ZST struct
-      have hfo : Shape.okAux false false f = true ∧ f.zst = false ∧ (fs ≠ [] → Shape.okFields fs = true ∧ Shape.zstLast false fs = false) := by
+      have hfo : Shape.okAux false false f = true ∧ (fs ≠ [] → f.zst = false ∧ Shape.okFields fs = true) := by
         cases fs with
-        | nil => exact ⟨by simpa [Shape.okFields] using hok, by simpa [Shape.zstLast] using hz, fun h => absurd rfl h⟩
+        | nil => exact ⟨by simpa [Shape.okFields] using hok, fun h => absurd rfl h⟩
         | cons g gs =>
           obtain ⟨h1, h2, h3⟩ := okFields_cons2 f g gs hok
-          rw [zstLast_cons_cons] at hz
-          exact ⟨h1, h2, fun _ => ⟨h3, hz⟩⟩
-      simp only [treesOf, notifyPs, encodeFields]
-      have e1 : pre ++ (encode f x ++ encodeFields fs xs) ++ rest = pre ++ encode f x ++ (encodeFields fs xs ++ rest) := by
-        simp [List.append_assoc]
-      rw [e1, ih f List.mem_cons_self false false hfo.1 hfo.2.1 x hv.1 hf.1 pre _ b hb src (by omega) neg amt]
-      simp only []
+          exact ⟨h1, fun _ => ⟨h2, h3⟩⟩
+      simp only [getPtrFields, encodeFields, treesOf, sizeFields]
       by_cases hfs : fs = []
-      · subst hfs; cases xs <;> simp [treesOf, notifyPs]
-      · obtain ⟨h3, h4⟩ := hfo.2.2 hfs
-        have e2 : pre ++ encode f x ++ (encodeFields fs xs ++ rest) = (pre ++ encode f x) ++ encodeFields fs xs ++ rest := by
-          simp [List.append_assoc]
-        rw [e2, ihf (fun g hg => ih g (List.mem_cons_of_mem _ hg)) h3 h4 xs hv.2 hf.2 (pre ++ encode f x) rest
-          (b + size f x) (by simp [hb, encode_size_all f x hv.1]) src (by omega) neg amt]
+      · subst hfs
+        have hx : xs = [] := by cases xs <;> simp [validFields] at hv ⊢
+        subst hx
+        have ht' : rest = [] ∨ f.zst = false := by simpa [Shape.zstLast] using ht
+        simp only [encodeFields, List.append_nil]
+        rw [ih f List.mem_cons_self false false hfo.1 x rest base hv.1 hf.1 ht']
+        simp [getPtrFields, treesOf, sizeFields]
+      · obtain ⟨hz, hokfs⟩ := hfo.2 hfs
+        rw [List.append_assoc, ih f List.mem_cons_self false false hfo.1 x _ base hv.1 hf.1 (Or.inr hz)]
+        simp only []
+        rw [← encode_size_all f x hv.1, List.drop_left]
+        have ht' : rest = [] ∨ Shape.zstLast false fs = false := by
+          cases fs with
+          | nil => exact absurd rfl hfs
+          | cons g gs => rw [zstLast_cons_cons] at ht; exact ht
+        rw [ihf (fun g hg => ih g (List.mem_cons_of_mem _ hg)) hokfs xs rest (base + (encode f x).length) hv.2 hf.2 ht']
 
 
-theorem variantTree_unit (ps : List Shape) (i : Nat) (pl : Val) (b : Nat) (ht : ps[i]? = some .unit) :
-    variantTree ps i pl b = none := by
-  induction i generalizing ps with
-  | zero => cases ps with
-    | nil => simp at ht
-    | cons p ps => simp at ht; subst ht; rfl
-  | succ i ih => cases ps with
-    | nil => simp at ht
-    | cons p ps => simp only [variantTree]; exact ih ps (by simpa using ht)
+theorem ulen_read (n len : Nat) (R : List Nat) (h : len < Shape.u32Lim) :
+    rdLE (((leN 4 n ++ leN 4 len ++ R).drop 4).take 4) = len := by
+  have : (leN 4 n ++ leN 4 len ++ R).drop 4 = leN 4 len ++ R := by
+    rw [List.append_assoc, drop_append_len _ _ 4 (by simp)]
+  rw [this, List.take_append_of_le_length (by simp), List.take_of_length_le (by simp)]
+  exact rdLE_leN 4 len (by simpa [Shape.u32Lim] using h)
 
-theorem variantTree_some (ps : List Shape) (i : Nat) (t : Shape) (pl : Val) (b : Nat) (ht : ps[i]? = some t)
-    (hu : t ≠ .unit) : variantTree ps i pl b = some (treeOf t pl b) := by
-  induction i generalizing ps with
-  | zero => cases ps with
-    | nil => simp at ht
-    | cons p ps => simp at ht; subst ht; cases p <;> first | rfl | exact absurd rfl hu
-  | succ i ih => cases ps with
-    | nil => simp at ht
-    | cons p ps => simp only [variantTree]; exact ih ps (by simpa using ht)
+theorem getPtrOk_variant (ds : List Nat) (ps : List Shape) (ih : ∀ p ∈ ps, GetPtrOk p)
+    (hok : Shape.okPayloads ps = true) (hnd : ds.Nodup) (i : Nat) (t : Shape) (pl : Val) (d : Nat)
+    (hd : ds[i]? = some d) (ht : ps[i]? = some t) (hv : valid t pl = true) (hf : fits t pl = true)
+    (rest : List Nat) (base : Nat) (htl : rest = [] ∨ t.zst = false) :
+    ∀ k, getPtrVariant ds ps d (encode t pl ++ rest) base k
+      = .ok (k + i, variantTree ps i pl base, size t pl) := by
+  induction i generalizing ds ps with
+  | zero =>
+    intro k
+    cases ds with
+    | nil => simp at hd
+    | cons d' ds => cases ps with
+      | nil => simp at ht
+      | cons p ps =>
+        simp at hd ht; subst hd ht
+        simp only [getPtrVariant, if_true]
+        rw [ih _ List.mem_cons_self false true (by simp [Shape.okPayloads] at hok; exact hok.1) pl rest base hv hf htl]
+        cases p <;> simp [variantTree, Shape.isUnit, treeOf]
+  | succ i ihi =>
+    intro k
+    cases ds with
+    | nil => simp at hd
+    | cons d' ds => cases ps with
+      | nil => simp at ht
+      | cons p ps =>
+        simp at hd ht
+        have hne : d ≠ d' := by
+          intro h; subst h
+          exact (List.nodup_cons.1 hnd).1 (List.mem_of_getElem? hd)
+        simp only [getPtrVariant, hne, if_false, variantTree]
+        simp only [Shape.okPayloads, Bool.and_eq_true] at hok
+        rw [ihi ds ps (fun q hq => ih q (List.mem_cons_of_mem _ hq)) hok.2 (List.nodup_cons.1 hnd).2 hd ht (k + 1)]
+        congr 2; omega
 
-theorem before_all (s : Shape) : BeforeOK s := by
+theorem getPtrOk_all (s : Shape) : GetPtrOk s := by
   induction s using Shape.induct' with
+  | fixed f =>
+    intro top ie hok v rest base hv hf ht
+    have := (roundTrip_all _ top ie hok v rest hv hf ht).1
+    simp only [extent] at this
+    simp only [getPtr, this, treeOf]
+  | list e lw =>
+    intro top ie hok v rest base hv hf ht
+    have := (roundTrip_all _ top ie hok v rest hv hf ht).1
+    simp only [extent] at this
+    simp only [getPtr, this, treeOf]
+  | set e lw =>
+    intro top ie hok v rest base hv hf ht
+    have := (roundTrip_all _ top ie hok v rest hv hf ht).1
+    simp only [extent] at this
+    simp only [getPtr, this, treeOf]
+  | map kw vv lw =>
+    intro top ie hok v rest base hv hf ht
+    have := (roundTrip_all _ top ie hok v rest hv hf ht).1
+    simp only [extent] at this
+    simp only [getPtr, this, treeOf]
+  | str lw =>
+    intro top ie hok v rest base hv hf ht
+    have := (roundTrip_all _ top ie hok v rest hv hf ht).1
+    simp only [extent] at this
+    simp only [getPtr, this, treeOf]
+  | rem =>
+    intro top ie hok v rest base hv hf ht
+    rcases ht with rfl | h
+    · cases v <;> simp only [valid, Bool.false_eq_true] at hv
+      simp [getPtr, treeOf, encode, size]
+    · simp [Shape.zst] at h
+  | ulist e ih =>
+    intro top ie hok v rest base hv hf ht
+    have hx := (roundTrip_all _ top ie hok v rest hv hf ht).1
+    simp only [extent] at hx
+    cases v <;> simp only [valid, Bool.false_eq_true] at hv
+    rename_i vs
+    simp only [fits, Bool.and_eq_true, decide_eq_true_eq] at hf
+    simp only [getPtr, hx, treeOf]
+    have : rdLE (((encode (.ulist e) (.useq vs) ++ rest).drop 4).take 4) = vs.length := by
+      simp only [encode, List.append_assoc]
+      have := ulen_read ((vs.map (encode e)).map List.length).sum vs.length
+        (((offsets ((vs.map (encode e)).map List.length) 0).map (leN 4)).flatten
+          ++ (leN 4 vs.length ++ ((vs.map (encode e)).flatten ++ rest))) hf.1.1
+      simpa [List.append_assoc] using this
+    rw [this]
+  | umap kw e ih =>
+    intro top ie hok v rest base hv hf ht
+    have hx := (roundTrip_all _ top ie hok v rest hv hf ht).1
+    simp only [extent] at hx
+    cases v <;> simp only [valid, Bool.false_eq_true] at hv
+    rename_i es
+    simp only [fits, Bool.and_eq_true, decide_eq_true_eq] at hf
+    simp only [getPtr, hx, treeOf]
+    have : rdLE (((encode (.umap kw e) (.umap es) ++ rest).drop 4).take 4) = es.length := by
+      simp only [encode, List.append_assoc]
+      have := ulen_read ((es.map fun kv => encode e kv.2).map List.length).sum es.length
+        ((List.zipWith (fun o (kv : List Nat × Val) => leN 4 o ++ kv.1)
+            (offsets ((es.map fun kv => encode e kv.2).map List.length) 0) es).flatten
+          ++ (leN 4 es.length ++ ((es.map fun kv => encode e kv.2).flatten ++ rest))) hf.1.1
+      simpa [List.append_assoc] using this
+    rw [this]
+  | unit => intro top ie hok v rest base hv hf ht; simp [getPtr, treeOf, size]
+  | disc d inner ih =>
+    intro top ie hok v rest base hv hf ht
+    simp only [Shape.okAux, Bool.and_eq_true] at hok
+    simp only [valid] at hv
+    simp only [fits] at hf
+    have h1 : d.length ≤ (encode (.disc d inner) v ++ rest).length := by simp [encode]
+    simp only [getPtr, h1, if_true, treeOf, size]
+    have h2 : (encode (.disc d inner) v ++ rest).drop d.length = encode inner v ++ rest := by
+      simp only [encode, List.append_assoc]; rw [drop_append_len d _ _ rfl]
+    rw [h2, ih false false hok.2 v rest (base + d.length) hv hf (by simpa [Shape.zst] using ht)]
+    simp only []; congr 2; omega
   | struct sized fs ih =>
-    intro top ie hok hz v hv hf pre rest b hb src hs neg amt
+    intro top ie hok v rest base hv hf ht
     cases v <;> simp only [valid, Bool.false_eq_true] at hv
     rename_i sz vs
     simp only [Shape.okAux, Bool.and_eq_true] at hok
     simp only [Bool.and_eq_true, beq_iff_eq, decide_eq_true_eq] at hv
     simp only [fits] at hf
-    simp only [Shape.zst] at hz
-    simp only [size] at hs
-    simp only [treeOf, encode]
-    have e1 : pre ++ (sz ++ encodeFields fs vs) ++ rest = (pre ++ sz) ++ encodeFields fs vs ++ rest := by
-      simp [List.append_assoc]
+    have ht' : rest = [] ∨ Shape.zstLast false fs = false := by simpa [Shape.zst] using ht
+    simp only [getPtr, treeOf, encode, size]
     by_cases he : sized.isEmpty = true
     · have hs0 : Fixed.sizeList sized = 0 := by
         cases sized with
         | nil => rfl
         | cons _ _ => simp at he
-      simp only [he, if_true, notifyP]
       have hsz : sz = [] := by cases sz with | nil => rfl | cons _ _ => simp [hs0] at hv
       subst hsz
-      rw [e1, List.append_nil, before_trees fs ih hok.2 hz vs hv.2 hf pre rest b hb src (by omega) neg amt]
-    · simp only [he, Bool.false_eq_true, if_false, notifyP, notifyPs]
-      have h1 : ¬ src < b := by omega
-      simp only [h1, if_false, Bool.false_and, Bool.false_eq_true]
-      rw [e1, before_trees fs ih hok.2 hz vs hv.2 hf (pre ++ sz) rest (b + Fixed.sizeList sized)
-        (by simp [hb, hv.1.1.1]) src (by omega) neg amt]
+      simp only [he, if_true, List.nil_append]
+      rw [getPtrOk_fields fs ih hok.2 vs rest base hv.2 hf ht']
+      simp [hs0]
+    · simp only [he, Bool.false_eq_true, if_false]
+      have hxf : extentFixed (.record sized) (sz ++ encodeFields fs vs ++ rest) = .ok (Fixed.sizeList sized) := by
+        have := extentFixed_encode (.record sized) sz (encodeFields fs vs ++ rest) (by simpa [Fixed.size] using hv.1.1.1)
+          (by simpa [Fixed.valid] using hv.1.1.2)
+        simpa [Fixed.size, List.append_assoc] using this
+      rw [hxf]
+      simp only []
+      have hdrop : (sz ++ encodeFields fs vs ++ rest).drop (Fixed.sizeList sized) = encodeFields fs vs ++ rest := by
+        rw [List.append_assoc, drop_append_len sz _ _ hv.1.1.1.symm]
+      rw [hdrop, getPtrOk_fields fs ih hok.2 vs rest (base + Fixed.sizeList sized) hv.2 hf ht']
   | enum ds ps ih =>
-    intro top ie hok hz v hv hf pre rest b hb src hs neg amt
+    intro top ie hok v rest base hv hf ht
     cases v <;> simp only [valid, Bool.false_eq_true] at hv
     rename_i i pl
     simp only [Shape.okAux, Bool.and_eq_true, beq_iff_eq, decide_eq_true_eq] at hok
     simp only [Bool.and_eq_true, decide_eq_true_eq] at hv
     simp only [fits] at hf
-    simp only [Shape.zst] at hz
-    obtain ⟨t, ht, hvt⟩ := validVariant_get ps i pl hv.2
+    obtain ⟨t, htt, hvt⟩ := validVariant_get ps i pl hv.2
     have hd : ds[i]? = some ds[i] := List.getElem?_eq_getElem hv.1
+    have hzt : rest = [] ∨ t.zst = false := by
+      rcases ht with h | h
+      · exact Or.inl h
+      · exact Or.inr (zstAny_false_mem ps (by simpa [Shape.zst] using h) t (List.mem_of_getElem? htt))
+    simp only [getPtr, treeOf, encode]
+    rw [encodeVariant_get ds ps i pl _ t hd htt]
+    simp only [List.cons_append]
+    rw [getPtrOk_variant ds ps ih hok.2 hok.1.2 i t pl _ hd htt hvt (fitsVariant_get ps i pl t htt hf) rest (base + 1) hzt 0]
+    simp only [Nat.zero_add, size]
     have hst : sizeVariant ps i pl = size t pl := by
       have : ∀ (qs : List Shape) (j : Nat), qs[j]? = some t → sizeVariant qs j pl = size t pl := by
         intro qs j
@@ -364,71 +271,14 @@ theorem before_all (s : Shape) : BeforeOK s := by
         | succ j ihj => intro h; cases qs with
           | nil => simp at h
           | cons q qs => simp only [sizeVariant]; exact ihj qs (by simpa using h)
-      exact this ps i ht
-    simp only [size, hst] at hs
-    simp only [treeOf, encode, notifyP]
-    rw [encodeVariant_get ds ps i pl _ t hd ht]
-    have h1 : ¬ src < b := by omega
-    by_cases hu : t = .unit
-    · subst hu
-      rw [variantTree_unit ps i pl (b + 1) ht]
-      simp [notifyPo, h1]
-    · rw [variantTree_some ps i t pl (b + 1) ht hu]
-      simp only [notifyPo]
-      have e1 : ∀ E : List Nat, pre ++ ds[i] :: E ++ rest = (pre ++ [ds[i]]) ++ E ++ rest := by
-        intro E; simp [List.append_assoc]
-      rw [e1, ih _ (List.mem_of_getElem? ht) false true (okPayloads_get ps i _ ht hok.2)
-        (zstAny_false_mem ps hz _ (List.mem_of_getElem? ht)) pl hvt (fitsVariant_get ps i pl _ ht hf)
-        (pre ++ [ds[i]]) rest (b + 1) (by simp [hb]) src (by omega) neg amt]
-      simp [h1]
-  | ulist e ih =>
-    intro top ie hok hz v hv hf pre rest b hb src hs neg amt
-    cases v <;> simp only [valid, Bool.false_eq_true] at hv
-    rename_i vs
-    simp only [fits, Bool.and_eq_true, decide_eq_true_eq] at hf
-    have hkeys : ∀ k ∈ vs.map (fun _ => ([] : List Nat)), k.length = 0 := by
-      intro k hk; obtain ⟨_, _, rfl⟩ := List.mem_map.1 hk; rfl
-    have hsizes := map_encode_length e vs hv
-    have husz : rd32 (pre ++ encode (.ulist e) (.useq vs) ++ rest) b = (vs.map (size e)).sum := by
-      rw [encode_ulist_uBytes, uBytes, ← hsizes]
-      have e1 : pre ++ (uHdrOf (vs.map fun _ => []) ((vs.map (encode e)).map List.length)
-          ++ (vs.map (encode e)).flatten) ++ rest
-          = pre ++ uHdrOf (vs.map fun _ => []) ((vs.map (encode e)).map List.length)
-            ++ ((vs.map (encode e)).flatten ++ rest) := by simp [List.append_assoc]
-      rw [e1, rd32_uHdr_usz _ _ pre _ b hb (by rw [hsizes]; exact hf.1.2)]
-    simp only [size] at hs
-    simp only [treeOf, notifyP, husz]
-    have h1 : ¬ src < b := by omega
-    have h2 : src ≠ b := by omega
-    have h3 : ¬ src < b + (12 + vs.length * 4 + (vs.map (size e)).sum) := by omega
-    simp only [h1, h2, h3, if_false]
-  | umap kw e ih =>
-    intro top ie hok hz v hv hf pre rest b hb src hs neg amt
-    cases v <;> simp only [valid, Bool.false_eq_true] at hv
-    rename_i es
-    simp only [Bool.and_eq_true] at hv
-    simp only [fits, Bool.and_eq_true, decide_eq_true_eq] at hf
-    have hvall : es.all (fun kv => valid e kv.2) = true := by
-      rw [List.all_eq_true] at hv ⊢
-      intro x hx'; have := hv.1 x hx'; simp only [Bool.and_eq_true] at this; exact this.2
-    have hsizes := map_encode_length_kv e es hvall
-    have husz : rd32 (pre ++ encode (.umap kw e) (.umap es) ++ rest) b = (es.map (fun kv => size e kv.2)).sum := by
-      rw [encode_umap_uBytes, uBytes, ← hsizes]
-      have e1 : pre ++ (uHdrOf (es.map (·.1)) ((es.map fun kv => encode e kv.2).map List.length)
-          ++ (es.map fun kv => encode e kv.2).flatten) ++ rest
-          = pre ++ uHdrOf (es.map (·.1)) ((es.map fun kv => encode e kv.2).map List.length)
-            ++ ((es.map fun kv => encode e kv.2).flatten ++ rest) := by simp [List.append_assoc]
-      rw [e1, rd32_uHdr_usz _ _ pre _ b hb (by rw [hsizes]; exact hf.1.2)]
-    simp only [size] at hs
-    simp only [treeOf, notifyP, husz]
-    have h1 : ¬ src < b := by omega
-    have h2 : src ≠ b := by omega
-    have h3 : ¬ src < b + (12 + es.length * Shape.entryW kw + (es.map (fun kv => size e kv.2)).sum) := by omega
-    simp only [h1, h2, h3, if_false]
-  | rem => intro top ie hok hz; simp [Shape.zst] at hz
-  | _ =>
-    intro top ie hok hz v hv hf pre rest b hb src hs neg amt
-    have h1 : ¬ src < b := by omega
-    cases v <;> simp only [treeOf, notifyP, h1, if_false, Bool.false_and, Bool.false_eq_true]
+      exact this ps i htt
+    rw [hst]
+
+/-- `get_ptr` on canonical bytes = `treeOf`. -/
+theorem getPtr_encode (s : Shape) (v : Val) (rest : List Nat) (base : Nat) (g : Machine.Good s v)
+    (ht : rest = [] ∨ s.zst = false) :
+    getPtr s (encode s v ++ rest) base = .ok (treeOf s v base, size s v) := by
+  obtain ⟨⟨top, ie, hok⟩, hv, hf⟩ := g
+  exact getPtrOk_all s top ie hok v rest base hv hf ht
 
 end Unsized.Ptr
